@@ -55,7 +55,7 @@ func (runInfo *runInfoStruct) invokeLetMemberExpr(expr *ast.MemberExpr) {
 		runInfo.rv = runInfo.rv.Elem()
 	}
 
-	if env, ok := runInfo.rv.Interface().(*env.Env); ok {
+	if env, ok := runInfo.rv.Interface().(*env.Env); ok && env != nil {
 		runInfo.err = env.SetValue(expr.Name, value)
 		if runInfo.err != nil {
 			runInfo.err = newError(expr, runInfo.err)
